@@ -76,6 +76,11 @@ static bool do_encode(rt_case *c, uint64_t idx, vbuf *out, size_t *consumed, cha
 			for (size_t i = 0; i < sizeof(junk); ++i) { x = x * 1664525u + 1013904223u; junk[i] = (i & 64) ? (uint8_t)(x >> 24) : (uint8_t)"first life "[i % 11]; }
 			strm.next_in = junk; strm.avail_in = sizeof(junk);
 			for (int it = 0; it < 40 && strm.avail_in; ++it) { strm.next_out = ob; strm.avail_out = sizeof(ob); if (lzma_code(&strm, LZMA_RUN) != LZMA_OK) break; }
+			// ... and is abandoned in the middle of handing out what it has produced: a full flush (xz encoders) is
+			// started and continued for a few calls with a tiny output buffer, so that a finished Block of the
+			// threaded encoder is only partly copied out when the handle is re-initialised
+			if (c->ep == EP_EASY || c->ep == EP_STREAM || c->ep == EP_STREAM_MT)
+				for (int it = 0; it < 4; ++it) { strm.next_out = ob; strm.avail_out = 1 + (size_t)((x >> (it * 3)) & 7); if (lzma_code(&strm, LZMA_FULL_FLUSH) != LZMA_OK) break; }
 			strm.next_in = NULL; strm.avail_in = 0; strm.next_out = NULL; strm.avail_out = 0;
 		}
 	}
@@ -527,7 +532,11 @@ static void run_case(uint64_t idx)
 	if ((c.ep == EP_EASY || c.ep == EP_STREAM || c.ep == EP_STREAM_MT || c.ep == EP_RAW || c.ep == EP_BLOCK) && vrng_chance(&r, 1, 4))
 		gen_flush_script(&c, &r, vrng_chance(&r, 1, 2));
 	if (vrng_chance(&r, 1, 25)) { tweak_invalid(&c, &r); if (c.maybe_invalid) c.bias = 0; }
+	// an eighth of the streaming cases encode on a handle that was such an encoder before and was abandoned in the
+	// middle of a full flush (re-initialised without lzma_end)
+	if (vrng_chance(&r, 1, 8) && !c.maybe_invalid) { c.second_life = true; }
 	hx_case_begin(idx);
+	if (c.second_life && (c.ep == EP_EASY || c.ep == EP_STREAM || c.ep == EP_STREAM_MT || c.ep == EP_ALONE || c.ep == EP_RAW)) hx_count("second_life_cases", 1);
 	char err[400] = "";
 	vbuf comp = {0}, comp2 = {0}, dec = {0};
 	size_t consumed = 0;
